@@ -66,6 +66,8 @@ def scenarios(tier):
     # a file that opens its own transaction and fails inside it
     files_variants.append((["BEGIN;", STMTS[0], BAD, "COMMIT;"], 3))
     files_variants.append(([STMTS[0], "BEGIN;", STMTS[1], BAD, "COMMIT;"], 4))
+    # every statement succeeds but the resulting state cannot be inspected (SQLite accepts a foreign key to a column that does not exist)
+    files_variants.append(([STMTS[0], "CREATE TABLE nodes (id integer PRIMARY KEY, p integer REFERENCES nodes (idd));"], 3))
     cmds = ["migrate-validate", "migrate-lint", "migrate-lint-1", "migrate-diff", "schema-apply-sql", "schema-diff-sql", "schema-apply-hcl", "schema-diff-hcl"]
     for cmd in cmds:
         for dev in DEV_STATES:
